@@ -64,5 +64,24 @@ end
 
 instance : BEq J := ⟨beq⟩
 
+mutual
+  /-- equality of JSON values where the order of object members does not matter: same number of
+      members, and every member of the left object is bound to an equivalent value on the right
+      (keys are unique on both sides).  Structural recursion on the LEFT value. -/
+  def eqv : J → J → Bool
+    | .null, y => (match y with | .null => true | _ => false)
+    | .bool a, y => (match y with | .bool b => a == b | _ => false)
+    | .num m e, y => (match y with | .num m' e' => m == m' && e == e' | _ => false)
+    | .str a, y => (match y with | .str b => a == b | _ => false)
+    | .arr xs, y => (match y with | .arr ys => eqvList xs ys | _ => false)
+    | .obj xs, y => (match y with | .obj ys => xs.length == ys.length && eqvKvs xs ys | _ => false)
+  def eqvList : List J → List J → Bool
+    | [], ys => ys.isEmpty
+    | x :: xs, ys => (match ys with | y :: ys' => eqv x y && eqvList xs ys' | [] => false)
+  def eqvKvs : List (String × J) → List (String × J) → Bool
+    | [], _ => true
+    | (k, x) :: xs, ys => (match lookup k ys with | some y => eqv x y | none => false) && eqvKvs xs ys
+end
+
 end J
 end Ariadne
